@@ -727,6 +727,36 @@ pub enum Op {
         #[serde(default)]
         stored: Option<(String, String)>,
     },
+    /// holder side, sent to the COLLECTION (not a minter step): cw721 Burn of `token_id` by `who`
+    /// (`who` may be "@owner": whoever holds the token right now)
+    Burn { who: String, token_id: u32 },
+    /// holder side, sent to the COLLECTION: cw721 TransferNft of `token_id` from `who` to `to`
+    TransferNft { who: String, to: String, token_id: u32 },
+}
+
+/// `who` of a holder op may be "@owner": whoever holds the token right now (STRANGER if nobody does)
+pub fn resolve_holder(app: &App, collection: &Addr, who: &str, token_id: u32) -> String {
+    if who != "@owner" {
+        return who.to_string();
+    }
+    app.wrap()
+        .query_wasm_smart::<Value>(collection.clone(), &json!({"owner_of": {"token_id": token_id.to_string(), "include_expired": null}}))
+        .ok()
+        .and_then(|v| v["owner"].as_str().map(|s| s.to_string()))
+        .unwrap_or_else(|| STRANGER.to_string())
+}
+
+/// A cw721 Burn / TransferNft sent to `collection` by `who`; the minter must not notice:
+/// Err text starts with MINTER-CHANGED-BY-HOLDER-OP when the minter's raw storage moved.
+pub fn holder_op(app: &mut App, minter: &Addr, collection: &Addr, who: &str, msg: &Value) -> (bool, Option<String>) {
+    let before = chain::storage_digest(app, minter);
+    let r = chain::exec(app, who, collection, msg, &[]);
+    let ok = r.is_ok();
+    let mut err = r.err();
+    if chain::storage_digest(app, minter) != before {
+        err = Some(format!("MINTER-CHANGED-BY-HOLDER-OP: {}", err.unwrap_or_default()));
+    }
+    (ok, err)
 }
 
 /// MAJOR.MINOR.PATCH with plain decimal numbers (what model/Semver.v accepts); anything else is None
@@ -806,6 +836,18 @@ impl SaleWorld {
                 let f = self.factory.clone();
                 let r = chain::sudo(&mut self.app, &f, &msg);
                 return not_step(r.is_ok(), r.err());
+            }
+            Op::Burn { who, token_id } => {
+                let (m, c) = (self.minter.clone(), self.collection.clone());
+                let who = resolve_holder(&self.app, &c, who, *token_id);
+                let (ok, err) = holder_op(&mut self.app, &m, &c, &who, &json!({"burn": {"token_id": token_id.to_string()}}));
+                return not_step(ok, err);
+            }
+            Op::TransferNft { who, to, token_id } => {
+                let (m, c) = (self.minter.clone(), self.collection.clone());
+                let who = resolve_holder(&self.app, &c, who, *token_id);
+                let (ok, err) = holder_op(&mut self.app, &m, &c, &who, &json!({"transfer_nft": {"recipient": to, "token_id": token_id.to_string()}}));
+                return not_step(ok, err);
             }
             Op::Migrate { who, stored } => {
                 if let Some((n, v)) = stored {
